@@ -149,6 +149,36 @@ def inline_text(rng, n=None) -> str:
     return "".join(parts)
 
 
+SOUP = ["*", "_", "**", "`", "``", "[", "]", "(", ")", "<", ">", "!", "#", "-", "+", "=", "|", "~", "~~", "\\", "&", "&#", "x", "1f", ";", ":", "/",
+        "\"", "'", "\n", "\n", "\n\n", " ", "  ", "\t", "    ", "1.", "2)", "a", "b", "http://x.y", "@", "\xa9", "\xa0", "\u2028", "---", "***", "```", ">", "> ",
+        "- ", "[a]:", " /u", "&amp;", "&#35;", "<div>", "</div>", "<!--", "-->", "=", "===", ":-:", "\x0c", "\x1f", "\xe9", "\u4e2d", "\U0001d4b3", ".", "..", "(c)", "--"]
+
+
+def token_soup(rng) -> str:
+    """a short random sequence of Markdown-significant tokens: no structure at all, so that delimiter runs, brackets, entities,
+    block markers and blanks meet in orders no grammar-driven generator writes"""
+    return "".join(rng.choice(SOUP) for _ in range(rng.randrange(1, 26)))
+
+
+def delim_run_family() -> list[str]:
+    """every sequence of three emphasis delimiter runs (lengths 1-3; can only open / can only close / can do both; * and _ mixed in
+    the last position) plus a deterministic sample of four-run sequences: the opener search of the pairing pass keys its lower
+    bounds by (can open, length mod 3), so every combination of the two has to occur below every other"""
+    kinds = []
+    for n in (1, 2, 3):
+        kinds += [(" " + "*" * n + "a", "o"), ("a" + "*" * n + " ", "c"), ("a" + "*" * n + "a", "b")]
+    out = []
+    import itertools
+    import random as _random
+    for combo in itertools.product(kinds, repeat=3):
+        out.append("x" + "".join(k for k, _ in combo) + "\n")
+    r = _random.Random(7)
+    allk = kinds + [(" " + "_" * n + "a", "o") for n in (1, 2)] + [("a" + "_" * n + " ", "c") for n in (1, 2)]
+    for _ in range(900):
+        out.append("x" + "".join(r.choice(allk)[0] for _ in range(r.choice([4, 4, 5]))) + "\n")
+    return out
+
+
 def flanking_soup(rng) -> str:
     """emphasis / strikethrough delimiter runs, each written so that it can only open (blank before, word after) or only close
     (word before, blank after): every order of openers and closers of different kinds, incl. pairs that would cross"""
